@@ -131,6 +131,12 @@ int KSI_base32Decode(const char *base32, unsigned char **data, size_t *data_len)
 
 	/* We ignore padding errors. */
 
+	/* A valid encoding never leaves a whole unused symbol (5 or more surplus bits). */
+	if (bits_decoded % 8 >= 5) {
+		res = KSI_INVALID_FORMAT;
+		goto cleanup;
+	}
+
 	/* This operation also truncates extra bits from the end (when input
 	 * bit count was not divisible by 5). */
 	*data_len = bits_decoded / 8;
